@@ -330,6 +330,8 @@ func C10(ctx *core.Ctx) {
 		}
 		radixAgreement(ctx, pfns, cc.IPos, QName, "C10.R7", "base 0 re-reads a literal with a leading zero as octal (010 = 8) and rejects 08/09: field ids, enum values and constants differ from what the IDL declares")
 		c10ParseCache(ctx, cc)
+		c10IndexComplete(ctx, cc)
+		c10ForcedModifiers(ctx, cc)
 	}
 	gs, err := peg.ParseSource(string(src))
 	if err != nil {
